@@ -152,7 +152,7 @@ def run(chk):
         "multi-line trivia in front of a statement / around braces / inside config maps); a separator is kept between adjacent alphanumerics; "
         "the slot after a unary minus is not a boundary (documented restriction: `- x` is the scope identifier `-`)",
         "the statement / whole-file layout theorems (props/C08.v: C08_layout_inner, C08_layout_file) cover replacement of trivia by other "
-        "trivia in texts without string literals; insertion/removal of trivia, trivia before a line break on one side only, strings and "
+        "trivia (also trailing trivia on one side only) in texts without string literals; insertion/removal between touching tokens, strings and "
         "keyword case are proved on a finite domain only (C08_layout_bounded_partial) and otherwise decided by the correspondence and the "
         "metamorphic oracle on the implementation",
         "`bytes depend only on the skeleton` has no code model in this unit: decided by the metamorphic oracle",
